@@ -161,12 +161,12 @@ class HostKeyTest:
 
                 # Do the initial DH exchange.  The server responds back
                 # with the host key and its length.  Bingo.  We also get back the host key fingerprint.
-                kex_group.send_init(s)
                 raw_hostkey_bytes = b''
                 try:
+                    kex_group.send_init(s)
                     kex_reply = kex_group.recv_reply(s)
                     raw_hostkey_bytes = kex_reply if kex_reply is not None else b''
-                except KexDHException:
+                except (Exception, SystemExit):  # The server controls every byte of the reply: besides KexDHException, parsing a malformed one can raise struct.error, ValueError, UnicodeDecodeError, or end in sys.exit() from the packet reader.  None of that may take the whole audit down.
                     msg = "Failed to parse server's host key."
                     if not out.debug:
                         msg += "  Re-run in debug mode to see stack trace."
